@@ -65,6 +65,8 @@ class Env(object):
         self.sched = None         # thread scheduler / vloop gate
         self.timeouts = []        # timeout values passed to bulk_read/bulk_write
         self.make_auth = None
+        self.session_over = None   # per-connect overrides set by the harness: {'auth': spec, 'connect_error': kind}
+        self.auths = []
         self.connect_error = cfg.get('connect_error')
         self.closes = 0
         self.connects = 0
@@ -113,8 +115,10 @@ class Env(object):
     def t_connect(self, timeout):
         kind = self._tick('connect')
         self.connects += 1
-        if kind or self.connect_error:
-            k = kind or self.connect_error
+        over = self.session_over or {}
+        if kind or self.connect_error or over.get('connect_error'):
+            k = kind or self.connect_error or over.get('connect_error')
+            self.session_over = None
             if k == 'timeout':
                 from adb_shell.exceptions import TcpTimeoutException
                 raise TcpTimeoutException('injected connect timeout')
@@ -126,6 +130,7 @@ class Env(object):
         self.eof = False
         self.sticky = None
         self.dev = adbsim.Device(self, self.cfg)
+        self.session_over = None
 
     def t_close(self):
         self.calls += 1
